@@ -32,7 +32,7 @@ ARGS = ["a", "x", "push", "status", "origin", "-f", "--force", "-v", "src/main.p
         "src/../src/main.py", "@CWD@/src/main.py", "~/n/f", "/etc/passwd", "bin/x.js", "1", "a=b", "zap", "--opt=v", "./a=b.sh", "X+=v"]
 # a form is a list of components: an assignment prefix or one wrapper with its options
 # every bash spelling of an assignment word: NAME=v, NAME=, NAME="a b", NAME+=v, NAME[sub]=v, NAME[sub]+=v, several mixed
-ENVS = {"env": ["X=1"], "env2": ["A=b", "C=d"], "envempty": ["X="], "envquoted": ['X="a b"'], "envplus": ["PATH+=:/opt/bin"],
+ENVS = {"env": ["X=1"], "env2": ["A=b", "C=d"], "envempty": ["X="], "envquoted": ['X="a b"'], "envplus": ["LIBDIRS+=:/opt/bin"],
         "envarr": ["a[0]=v"], "envarrplus": ["a[k]+=v"], "envmixed": ["X=1", "Y+=2", "a[1]=3", "Z="]}
 WRAPS = {"time": ["time"], "timeout": ["timeout", "5"], "nice": ["nice", "-n", "3"], "nohup": ["nohup"], "command": ["command", "--"]}
 ENV_WORDS = {w for v in ENVS.values() for w in v}
